@@ -293,7 +293,7 @@ func (fx *FnExec) cutLoop(fr *Frame, h *ssa.BasicBlock, prev *ssa.BasicBlock, st
 		if li == nil {
 			panic(Unsupported{"back edge without loop entry"})
 		}
-		for _, nt := range spec.Invariant(fx, fr, st, li.entry) {
+		for _, nt := range spec.Invariant(fx, fr, st, li.entry, false) {
 			fx.Oblige(st, fmt.Sprintf("%s%s#inv.preserve[loop%d.%s]", fr.Prefix, fname, ord, nt.Name), "inv.preserve", nt.T, "", "loop invariant preserved")
 		}
 		if spec.Decreases != nil {
@@ -307,7 +307,7 @@ func (fx *FnExec) cutLoop(fr *Frame, h *ssa.BasicBlock, prev *ssa.BasicBlock, st
 	}
 	// entry from outside
 	entrySnap := st.Clone()
-	for _, nt := range spec.Invariant(fx, fr, st, entrySnap) {
+	for _, nt := range spec.Invariant(fx, fr, st, entrySnap, false) {
 		fx.Oblige(st, fmt.Sprintf("%s%s#inv.init[loop%d.%s]", fr.Prefix, fname, ord, nt.Name), "inv.init", nt.T, "", "loop invariant holds on entry")
 	}
 	if spec.OnEntry != nil && fx.discoverLoop == nil {
@@ -392,7 +392,7 @@ func (fx *FnExec) cutLoop(fr *Frame, h *ssa.BasicBlock, prev *ssa.BasicBlock, st
 		}
 	}
 	s2, f2 := mkHavoc(st, fr)
-	for _, nt := range spec.Invariant(fx, f2, s2, entrySnap) {
+	for _, nt := range spec.Invariant(fx, f2, s2, entrySnap, true) {
 		s2.Assume(nt.T)
 	}
 	li := &loopInfo{entry: entrySnap}
@@ -544,4 +544,18 @@ func (fx *FnExec) HavocLoc(st *State, o *Object, p Path, site string) {
 	old := fx.readPath(st, cur, p, nil)
 	nv := fx.havocValue(st, old, typeAtPath(o.Typ, p), "havoc."+o.Name)
 	st.Heap[o] = fx.writePath(cur, p, nv)
+}
+
+// ReadLoc returns the value stored at (obj, path) in st (nil if absent).
+func (fx *FnExec) ReadLoc(st *State, o *Object, p Path) (v Value) {
+	defer func() {
+		if r := recover(); r != nil {
+			v = nil
+		}
+	}()
+	cur, ok := st.Heap[o]
+	if !ok {
+		return nil
+	}
+	return fx.readPath(st, cur, p, nil)
 }
